@@ -4,6 +4,7 @@ import (
 	"fmt"
 	"os"
 	"path/filepath"
+	"sync"
 )
 
 // Loader defines the interface for template loading
@@ -30,6 +31,7 @@ type FileSystemLoader struct {
 	defaultPaths []string
 	// Stores paths for each loaded template to avoid repeatedly searching for the file
 	templatePaths map[string]string
+	mu            sync.RWMutex // protects templatePaths
 }
 
 // ArrayLoader loads templates from an in-memory array
@@ -69,7 +71,10 @@ func NewFileSystemLoader(paths []string) *FileSystemLoader {
 // Load loads a template from the file system
 func (l *FileSystemLoader) Load(name string) (string, error) {
 	// Check if we already know the location of this template
-	if filePath, ok := l.templatePaths[name]; ok {
+	l.mu.RLock()
+	filePath, ok := l.templatePaths[name]
+	l.mu.RUnlock()
+	if ok {
 		// Check if file still exists at this path
 		if _, err := os.Stat(filePath); err == nil {
 			// Read file content
@@ -81,7 +86,9 @@ func (l *FileSystemLoader) Load(name string) (string, error) {
 			return string(content), nil
 		}
 		// If file doesn't exist anymore, remove from cache and search again
+		l.mu.Lock()
 		delete(l.templatePaths, name)
+		l.mu.Unlock()
 	}
 
 	// Check each path for the template
@@ -96,7 +103,9 @@ func (l *FileSystemLoader) Load(name string) (string, error) {
 		// Check if file exists
 		if _, err := os.Stat(filePath); err == nil {
 			// Save the path for future lookups
+			l.mu.Lock()
 			l.templatePaths[name] = filePath
+			l.mu.Unlock()
 
 			// Read file content
 			content, err := os.ReadFile(filePath)
@@ -139,12 +148,17 @@ func (l *FileSystemLoader) SetSuffix(suffix string) {
 // GetModifiedTime returns the last modification time of a template file
 func (l *FileSystemLoader) GetModifiedTime(name string) (int64, error) {
 	// If we already know where this template is, check that path directly
-	if filePath, ok := l.templatePaths[name]; ok {
+	l.mu.RLock()
+	filePath, ok := l.templatePaths[name]
+	l.mu.RUnlock()
+	if ok {
 		info, err := os.Stat(filePath)
 		if err != nil {
 			// If file doesn't exist anymore, remove from cache
 			if os.IsNotExist(err) {
+				l.mu.Lock()
 				delete(l.templatePaths, name)
+				l.mu.Unlock()
 			}
 			return 0, err
 		}
@@ -165,7 +179,9 @@ func (l *FileSystemLoader) GetModifiedTime(name string) (int64, error) {
 		info, err := os.Stat(filePath)
 		if err == nil {
 			// Save the path for future lookups
+			l.mu.Lock()
 			l.templatePaths[name] = filePath
+			l.mu.Unlock()
 
 			return info.ModTime().Unix(), nil
 		}
